@@ -255,6 +255,11 @@ func c16(ctx *Ctx) (*Outcome, error) {
 		if i%3 == 0 {
 			o.Names = []string{"id", "url", "user_id", "httpServer", "alpha", "beta", "camelCase", "snake_case", "x1", "plainName"}
 		}
+		if i%6 == 1 {
+			// names the generated code has a use for itself (methods, locals, packages): whether one of them is taken
+			// must not depend on an option that does not speak about names
+			o.Names = InternalNames
+		}
 		g := sg.NewGen(r, o)
 		root := g.Root()
 		root.ID = "https://example.com/opt"
@@ -492,12 +497,11 @@ func comparePair(ctx *Ctx, p optPair, a, b []byte) string {
 		}
 		da, db := gocheck.DeclStrings(fa, fileA, false), gocheck.DeclStrings(fb, fileB, false)
 		for k := range da {
-			if strings.Contains(k, "YAML") || strings.Contains(k, "yaml.v3") {
+			// YAML code = the YAML methods and the import of the yaml package (not any name that merely contains
+			// "YAML": a property may be called UnmarshalYAML)
+			if strings.HasSuffix(k, ".UnmarshalYAML") || strings.HasSuffix(k, ".MarshalYAML") || (strings.HasPrefix(k, "import ") && strings.Contains(k, "yaml.v3")) {
 				return "YAML code without --extra-imports: " + k
 			}
-		}
-		if bytesContains(a, "yaml.") {
-			return "the output without --extra-imports mentions the yaml package"
 		}
 		for k, v := range db {
 			if strings.HasSuffix(k, ".UnmarshalYAML") || strings.HasSuffix(k, ".MarshalYAML") || k == `import "gopkg.in/yaml.v3"` {
